@@ -50,11 +50,13 @@ def target_solve(es, g, x0):
     return es
 
 
-def public_solve(es, g, x0, tname):
-    """Solve through the public SolveEquation() (steady-state target) or step by step with an injected start value."""
+def public_solve(es, g, x0, tname, first=True):
+    """Solve through the public SolveEquation() (steady-state target) or step by step with an injected start value.
+    The solver is configured once, before its first solve; a re-solve just calls the solve again."""
     if tname == 'steady-state-init':
-        es.ParameterSolveInitialSteadyState = True
-        es.ParameterInitialSteadyStateMaxTime = 3
+        if first:
+            es.ParameterSolveInitialSteadyState = True
+            es.ParameterInitialSteadyStateMaxTime = 3
         es.SolveEquation()
         return
     if len(es.VariableList) == 0:
@@ -123,7 +125,7 @@ def history_case(item):
             public_solve(es, g, x0, tname)
             if resolve:
                 # solve the same solver again (same settings as the first time)
-                public_solve(es, g, x0, tname)
+                public_solve(es, g, x0, tname, first=False)
         except ValueError:
             Logger.cleanup()
             return 'raised'
@@ -196,7 +198,8 @@ def run(es):
     es.Parser.Exogenous = [e for e in es.Parser.Exogenous if e[0] != 'G']
     es.Parser.Exogenous.append(('G', [vals['g1'], vals['g1'], vals['g2']]))
     if %(tname)r == 'steady-state-init':
-        es.ParameterSolveInitialSteadyState = True; es.ParameterInitialSteadyStateMaxTime = 3
+        if not getattr(es, '_configured', False):
+            es.ParameterSolveInitialSteadyState = True; es.ParameterInitialSteadyStateMaxTime = 3; es._configured = True
         es.SolveEquation(); return
     if len(es.VariableList) == 0: es.ExtractVariableList()
     es.SetInitialConditions(); es.TimeSeries['x'][0] = vals['x0']
